@@ -557,7 +557,8 @@ RPOW = z3.Function("rpow", _R, _R, _R)
 
 class CReal(Fraction):
     """Concrete exact rational used when replaying real-valued counterexamples
-    through numpy object arrays (needs .sqrt() for np.sqrt on object dtype)."""
+    through numpy object arrays: floats met on the way are absorbed exactly
+    (Fraction(float) is exact), so the replay stays in exact arithmetic."""
 
     def sqrt(self):
         import math
@@ -570,21 +571,41 @@ class CReal(Fraction):
     def copy(self):
         return self
 
-    def _w(self, r):
+    @staticmethod
+    def _c(o):
+        if isinstance(o, (float, np.floating)):
+            return Fraction(float(o))
+        if isinstance(o, np.integer):
+            return int(o)
+        return o
+
+    @staticmethod
+    def _w(r):
         return CReal(r) if isinstance(r, Fraction) and not isinstance(r, CReal) else r
 
-    def __add__(self, o): return self._w(Fraction.__add__(self, o))
-    def __radd__(self, o): return self._w(Fraction.__radd__(self, o))
-    def __sub__(self, o): return self._w(Fraction.__sub__(self, o))
-    def __rsub__(self, o): return self._w(Fraction.__rsub__(self, o))
-    def __mul__(self, o): return self._w(Fraction.__mul__(self, o))
-    def __rmul__(self, o): return self._w(Fraction.__rmul__(self, o))
-    def __truediv__(self, o): return self._w(Fraction.__truediv__(self, o))
-    def __rtruediv__(self, o): return self._w(Fraction.__rtruediv__(self, o))
+    def __add__(self, o): return self._w(Fraction.__add__(self, self._c(o)))
+    def __radd__(self, o): return self._w(Fraction.__radd__(self, self._c(o)))
+    def __sub__(self, o): return self._w(Fraction.__sub__(self, self._c(o)))
+    def __rsub__(self, o): return self._w(Fraction.__rsub__(self, self._c(o)))
+    def __mul__(self, o): return self._w(Fraction.__mul__(self, self._c(o)))
+    def __rmul__(self, o): return self._w(Fraction.__rmul__(self, self._c(o)))
+    def __truediv__(self, o): return self._w(Fraction.__truediv__(self, self._c(o)))
+    def __rtruediv__(self, o): return self._w(Fraction.__rtruediv__(self, self._c(o)))
     def __neg__(self): return CReal(Fraction.__neg__(self))
     def __pos__(self): return self
     def __abs__(self): return CReal(Fraction.__abs__(self))
-    def __pow__(self, o): return self._w(Fraction.__pow__(self, o))
+
+    def __pow__(self, o):
+        if isinstance(o, int):
+            return self._w(Fraction.__pow__(self, o))
+        return CReal(float(self) ** float(o))
+
+    def __lt__(self, o): return Fraction.__lt__(self, self._c(o))
+    def __le__(self, o): return Fraction.__le__(self, self._c(o))
+    def __gt__(self, o): return Fraction.__gt__(self, self._c(o))
+    def __ge__(self, o): return Fraction.__ge__(self, self._c(o))
+    def __eq__(self, o): return Fraction.__eq__(self, self._c(o))
+    __hash__ = Fraction.__hash__
 
 
 def is_sym(x):
